@@ -7,6 +7,7 @@ package main
 // R13b: no nondeterminism source (map iteration order, time, rand) in that set.
 
 import (
+	"go/token"
 	"fmt"
 	"go/types"
 	"sort"
@@ -89,6 +90,7 @@ func checkC13(c *Ctx, r *Result, tier string) {
 	sort.Slice(funcs, func(i, j int) bool { return c.FuncKey(funcs[i]) < c.FuncKey(funcs[j]) })
 	perPkg := map[string]int{}
 	writesSeen := 0
+	c13Atomics(c, r, funcs)
 	for _, fn := range funcs {
 		perPkg[c.PkgOf(fn)]++
 		key := c.FuncKey(fn)
@@ -279,4 +281,77 @@ func mutatorOutside(f *ssa.Function) bool {
 		}
 	}
 	return false
+}
+
+// c13Atomics: R13c — package-level state that the parsing / construction path updates through
+// sync/atomic is touched only through sync/atomic there (a plain read next to an atomic add is
+// a data race and can observe another goroutine's increment), and identifiers drawn from such
+// counters come from a single atomic step.
+func c13Atomics(c *Ctx, r *Result, funcs []*ssa.Function) {
+	atomicGlobals := map[*ssa.Global]bool{}
+	for _, fn := range funcs {
+		allInstrs(fn, func(in ssa.Instruction) {
+			call, ok := in.(*ssa.Call)
+			if !ok || !strings.HasPrefix(callName(call), "sync/atomic.") || len(call.Call.Args) == 0 {
+				return
+			}
+			if g, ok := call.Call.Args[0].(*ssa.Global); ok && c.inModuleGlobal(g) {
+				atomicGlobals[g] = true
+			}
+		})
+	}
+	n := 0
+	for _, fn := range funcs {
+		key := c.FuncKey(fn)
+		ord := newOrdinals()
+		allInstrs(fn, func(in ssa.Instruction) {
+			var g *ssa.Global
+			what := ""
+			switch x := in.(type) {
+			case *ssa.UnOp:
+				if gg, ok := x.X.(*ssa.Global); ok && x.Op == token.MUL {
+					g, what = gg, "plain read"
+				}
+			case *ssa.Store:
+				if gg, ok := x.Addr.(*ssa.Global); ok {
+					g, what = gg, "plain write"
+				}
+			}
+			if g == nil || !atomicGlobals[g] {
+				return
+			}
+			site := ord.key(key, "mixed-atomic", g.Name())
+			pos := c.Pos(c.InstrPos(in))
+			r.Instance("R13c", site, pos, "finding", what+" of an atomically updated variable", true)
+			r.Report(Finding{Rule: "R13c", Site: site, Pos: pos,
+				Msg: fmt.Sprintf("%s: %s of %s.%s, which concurrent parses update through sync/atomic: the access races with the atomic update and can observe another goroutine's value", key, what, g.Pkg.Pkg.Name(), g.Name())})
+		})
+	}
+	for g := range atomicGlobals {
+		n++
+		r.Instance("R13c", "atomic-global:"+g.Pkg.Pkg.Name()+"."+g.Name(), c.Pos(g.Pos()), "ok", "accessed on the parsing / construction path through sync/atomic", true)
+	}
+	inSet := map[*ssa.Function]bool{}
+	for _, fn := range funcs {
+		inSet[fn] = true
+	}
+	nGen := 0
+	for _, g := range findIDGenerators(c, NewLockFlows(c), func(p string) bool { return p == "parser" || p == "interpreter" }) {
+		if !inSet[g.Fn] {
+			continue
+		}
+		nGen++
+		key := c.FuncKey(g.Fn)
+		site := key + "#idgen:" + g.Loc
+		pos := c.Pos(g.ReadPos)
+		if g.OK {
+			r.Instance("R13c", site, pos, "ok", g.Why, true)
+			continue
+		}
+		r.Instance("R13c", site, pos, "finding", g.Why, true)
+		r.Report(Finding{Rule: "R13c", Site: site, Pos: pos,
+			Msg: fmt.Sprintf("%s hands out identifiers from %s, but %s — two runtime components built by concurrent parses get the same instance id (their per-instance state collides)", key, g.Loc, g.Why)})
+	}
+	r.Floor("R13c-atomic-globals", n, 1)
+	r.Floor("R13c-idgen", nGen, 1)
 }
